@@ -124,7 +124,9 @@ type metaWorld struct {
 }
 
 // newMetaWorld: wrap[0] = storage wrapper, wrap[1] = both roots valid now (the node then holds two
-// valid chains and ClientConfigs produces two configurations)
+// valid chains and ClientConfigs produces two configurations), wrap[2] = the listener's own options carry a
+// WithState option (state the operator wants attached to nodes that get authorized through the listener): it is
+// configuration, not something a node sent, and must never show up as client state
 func newMetaWorld(storage string, wrap ...bool) *metaWorld {
 	both := len(wrap) > 1 && wrap[1]
 	w := &metaWorld{s: world.MustServer(world.ServerCfg{Backend: storage, StorageWrap: len(wrap) > 0 && wrap[0], NoRoots: both})}
@@ -147,7 +149,12 @@ func newMetaWorld(storage string, wrap ...bool) *metaWorld {
 		ol.SetOrder("node-A", []string{w.B.K.KeyID, w.A.K.KeyID}) // the verifying record is not the first one
 	}
 	var err error
-	w.lw, err = world.NewLW(w.s, world.LWCfg{})
+	cfg := world.LWCfg{}
+	if len(wrap) > 2 && wrap[2] {
+		lst, _ := structpb.NewStruct(map[string]any{"origin": "listener-configuration", "tier": 2})
+		cfg.Options = w.s.Opts(nodeenrollment.WithState(lst))
+	}
+	w.lw, err = world.NewLW(w.s, cfg)
 	if err != nil {
 		panic(err)
 	}
@@ -497,7 +504,7 @@ func runMeta(c *engine.Ctx) engine.Result {
 			n++
 			go func(sto string, list []metaCase, p int) {
 				defer func() { done <- struct{}{} }()
-				w := newMetaWorld(sto, p%2 == 1, p%3 == 2)
+				w := newMetaWorld(sto, p%2 == 1, p%3 == 2, p%4 == 1 || p%4 == 2)
 				defer w.close()
 				for i := p; i < len(list); i += workers {
 					w.run(c, list[i])
